@@ -442,8 +442,20 @@ class Program:
         f = self.cls(cls_q).methods.get(name)
         if f is None:
             # pulled up into a base class (de-duplication of sibling implementations): the inherited
-            # definition is what instances of cls_q run
-            f = self.lookup_method(self.cls(cls_q), name)
+            # definition is what instances of cls_q run.  It is analysed with cls_q as the class of `self`
+            # (hooks it calls on self dispatch to cls_q's overrides).
+            base = self.lookup_method(self.cls(cls_q), name)
+            if base is not None:
+                key = "%s.%s@inherited" % (cls_q, name)
+                cache = self.__dict__.setdefault("_inherited", {})
+                f = cache.get(key)
+                if f is None:
+                    import copy as _copy
+                    f = _copy.copy(base)
+                    f.cls = self.cls(cls_q)
+                    f.qualname = key
+                    f.inherited_from = base
+                    cache[key] = f
         if f is None:
             raise AnalysisError("method %s.%s not defined in class body" % (cls_q, name))
         return f
